@@ -357,7 +357,7 @@ func globalsInitOnlyRule(P *Program, R *Report, rule string) {
 
 func workerPoolRule(P *Program, R *Report) {
 	rule := "C20.d"
-	nPools := 0
+	nPools, nJobs := 0, 0
 	for _, fn := range P.AllFuncs {
 		if fn.Pkg == nil || shortPkg(fn.Pkg.Pkg.Path()) != "keyproof" {
 			continue
@@ -408,7 +408,20 @@ func workerPoolRule(P *Program, R *Report) {
 			R.decide(rule, FuncKey(body)+":no-shared-writes", "the worker itself writes no captured variable", len(writes) == 0, strings.Join(writes, ","), P.Pos(body.Pos()))
 		}
 		// jobs: closures stored in the todo list: writes to captured slices only at captured (per-job) offsets; no append to captured slices
-		for _, job := range fn.AnonFuncs {
+		// (the closures put on the todo list live in this function or, when the pool is a helper that is handed the
+		// list, in the functions that call it)
+		hosts := []*ssa.Function{fn}
+		for _, caller := range P.AllFuncs {
+			if caller != fn && len(callsTo(caller, fn)) > 0 {
+				hosts = append(hosts, caller)
+			}
+		}
+		var jobs []*ssa.Function
+		for _, h := range hosts {
+			jobs = append(jobs, h.AnonFuncs...)
+		}
+		for _, job := range jobs {
+			nJobs++
 			isWorker := false
 			for _, g := range gos {
 				if mc, ok := g.Call.Value.(*ssa.MakeClosure); ok && mc.Fn == ssa.Value(job) {
@@ -465,7 +478,7 @@ func workerPoolRule(P *Program, R *Report) {
 			_ = nw
 		}
 	}
-	R.decide(rule, "pools:count", "the two worker pools of the exponentiation proof were found", nPools == 2, fmt.Sprintf("%d", nPools), "")
+	R.decide(rule, "pools:count", "the worker pools of the exponentiation proof and the jobs they run were found (>= 1 pool, >= 10 closures)", nPools >= 1 && nJobs >= 10, fmt.Sprintf("%d pools, %d closures", nPools, nJobs), "")
 }
 
 func publicKeyReadOnlyRule(P *Program, R *Report) {
@@ -541,6 +554,38 @@ func rootParam(v ssa.Value) (*ssa.Parameter, bool) {
 
 // freshAtAllCallers: every call of fn inside the reach passes, for parameter p, an object allocated by the caller
 // (or the caller's own parameter that is itself fresh at all its callers).
+// freshFromConstructor: v is (result 0 of) a call of a module function all of whose non-nil returns hand out an
+// object allocated in that call (or obtained from another such constructor).
+func freshFromConstructor(v ssa.Value, depth int) bool {
+	if depth > 2 {
+		return false
+	}
+	c, idx := callAndResult(v)
+	if c == nil || idx > 0 {
+		return false
+	}
+	g := staticCallee(c)
+	if g == nil || g.Blocks == nil || !inModuleFn(g) {
+		return false
+	}
+	n := 0
+	for _, r := range returnsOf(g) {
+		rv := r.Results[0]
+		if isNilConst(rv) {
+			continue
+		}
+		n++
+		switch rootOfAddr(rv).(type) {
+		case *ssa.Alloc:
+		default:
+			if !freshFromConstructor(rv, depth+1) {
+				return false
+			}
+		}
+	}
+	return n > 0
+}
+
 func freshAtAllCallers(P *Program, fn *ssa.Function, p *ssa.Parameter, reach map[*ssa.Function]bool, depth int) bool {
 	if depth > 4 {
 		return false
@@ -573,7 +618,10 @@ func freshAtAllCallers(P *Program, fn *ssa.Function, p *ssa.Parameter, reach map
 					return false
 				}
 			default:
-				return false
+				// the result of a constructor of the module: fresh if every object it returns is one it allocated
+				if !freshFromConstructor(args[k], 0) {
+					return false
+				}
 			}
 		}
 	}
